@@ -446,10 +446,11 @@ def describe(cls):
 def instantiate(cls, vindex, values):
     """real instance of variant number vindex with concrete operand values"""
     def mk(leaf, i):
+        # (variants before vindex are enumerated too and may have more leaves: give them dummies)
         if leaf['kind'] == 'reg':
-            return real_reg(leaf['cls'], values[i])
+            return real_reg(leaf['cls'], values[i] if i < len(values) and values[i] in leaf['nums'] else leaf['nums'][0])
         if leaf['kind'] == 'imm':
-            return values[i]
+            return values[i] if i < len(values) else 0
         return 'L%d' % i
     for n, (args, lv, path) in enumerate(variants(cls, [], mk)):
         if n == vindex:
